@@ -355,8 +355,8 @@ def obligations(tier):
         cfg = [("molecular", "unphased", 2, 2, 2), ("molecular", "phased", 2, 2, 2), ("molecular", "unphased", 2, 2, 1), ("molecular", "unphased", 3, 1, 2),
                ("vanraden", "unphased", 2, 2, 2), ("vanraden", "phased", 2, 1, 2), ("yang", "unphased", 2, 1, 2), ("yang", "phased", 2, 1, 2), ("gw", "unphased", 2, 2, 2), ("gw", "phased", 2, 1, 2)]
     else:
-        cfg = [("molecular", "unphased", 2, 2, 2), ("molecular", "phased", 2, 2, 2), ("molecular", "unphased", 2, 2, 1), ("molecular", "unphased", 3, 2, 2), ("molecular", "unphased", 3, 3, 1),
-               ("molecular", "phased", 3, 1, 2), ("vanraden", "unphased", 2, 2, 2), ("vanraden", "phased", 2, 2, 2), ("vanraden", "unphased", 3, 1, 2),
+        cfg = [("molecular", "unphased", 2, 2, 2), ("molecular", "phased", 2, 2, 2), ("molecular", "unphased", 2, 2, 1), ("molecular", "unphased", 3, 1, 2), ("molecular", "unphased", 3, 3, 1),
+               ("molecular", "phased", 3, 1, 2), ("vanraden", "unphased", 2, 2, 2), ("vanraden", "phased", 2, 2, 2),
                ("yang", "unphased", 2, 1, 2), ("yang", "phased", 2, 1, 2), ("gw", "unphased", 2, 2, 2), ("gw", "phased", 2, 2, 2), ("gw", "unphased", 3, 1, 2)]
     for est, kind, n, m, pl in cfg:
         h = FromGmat(est=est, kind=kind, n=n, m=m, ploidy=pl)
